@@ -34,7 +34,9 @@ const ALIAS_POSITIONS: &[(&str, &str, bool)] = &[
     ("romaniser IPA parameter", "a:[{M}] > Я", false), ("romaniser group parameter", "V:[{M}] > +Ю", false), ("romaniser matrix", "[{M}] > Ж", false),
     ("deromaniser IPA parameter", "Я > a:[{M}]", true), ("deromaniser plus matrix", "+Ю > [{M}]", true),
 ];
-const WORDS: &[&str] = &["ˈpa.tiːn", "an.ta51.ka", "kʷe.lo", "ʔaː.hu5", "ˌsa.maˈka", "Яk.saЮ"];
+const WORDS: &[&str] = &["ˈpa.tiːn", "an.ta51.ka", "kʷe.lo", "ʔaː.hu5", "ˌsa.maˈka", "pak"];
+/// words for deromaniser lines (the fresh strings Я / Ю occur in them)
+const WORDS_DEROM: &[&str] = &["Яk.saЮ", "ˈpa.tiːn", "taЮ5.Яn"];
 
 fn arg(name: &str, group0: &str) -> String { if group0 == "tone" { format!("{name}:5") } else if ["root", "manner", "laryngeal"].contains(&group0) { format!("α{name}") } else { format!("+{name}") } }
 
@@ -105,7 +107,7 @@ impl Property for C13 {
                 run_case(self, ctx, json!({"kind": "synonym", "position": pname, "canonical": tpl.replace("{M}", &arg(group[0], group[0])), "respelled": tpl.replace("{M}", &arg(syn, group[0])), "words": WORDS, "spelling": syn})); }
             for (pname, tpl, derom) in ALIAS_POSITIONS { idx += 1; if idx % ctx.nshards != ctx.shard { continue }
                 if ["root", "manner", "laryngeal"].contains(&group[0]) { continue }
-                run_case(self, ctx, json!({"kind": "alias-synonym", "position": pname, "canonical": tpl.replace("{M}", &arg(group[0], group[0])), "respelled": tpl.replace("{M}", &arg(syn, group[0])), "derom": derom, "words": WORDS, "spelling": syn})); }
+                run_case(self, ctx, json!({"kind": "alias-synonym", "position": pname, "canonical": tpl.replace("{M}", &arg(group[0], group[0])), "respelled": tpl.replace("{M}", &arg(syn, group[0])), "derom": derom, "words": if *derom { WORDS_DEROM } else { WORDS }, "spelling": syn})); }
         } }
         let n = ctx.tier.pick(2_000_000, 20_000_000);
         run_tape_batches(self, ctx, "styles", n, 500, &|t| {
@@ -145,7 +147,8 @@ impl Property for C13 {
                     return Outcome::fail(format!("{what}: {sub}"), json!({"canonical": a, "respelled": b, "words": words, "canonical_result": ka, "respelled_result": kb, "spelling": case["spelling"]}))
                 }
                 let fired = match (&ra, api::run(&[], &words, &[], &[])) { (Ok(Ok(x)), Ok(Ok(base))) => *x != base, _ => false };
-                if fired { Outcome::pass_nt(hash64(&(what, b))) } else { Outcome::pass() }
+                let o = if fired { Outcome::pass_nt(hash64(&(what.clone(), b))) } else { Outcome::pass() };
+                o.with_class(format!("{kind}:{}", if ka.starts_with("OK") { if fired { "ok, fired" } else { "ok, no change" } } else { "err (same variant)" }))
             }
             "word" => {
                 let rule = case["rule"].as_str().unwrap_or("");
